@@ -415,8 +415,15 @@ def write_evidence(pid: str, tier: str, seed: int, m: dict, meta: dict,
         "known_findings_reproduced": m["known"],
         "repo": repo_dir(),
     }
-    os.makedirs(os.path.join(VERIF_DIR, "evidence"), exist_ok=True)
-    path = os.path.join(VERIF_DIR, "evidence", f"{pid}.json")
+    # evidence/ only ever describes runs against /repo itself: runs against
+    # a scratch copy (mutants, seeded changes) write next to their other
+    # output
+    edir = os.path.join(VERIF_DIR, "evidence")
+    if os.path.realpath(repo_dir()) != "/repo":
+        edir = os.path.join(os.environ.get(
+            "VERIF_OUT", os.path.join(VERIF_DIR, "out")), "evidence_scratch")
+    os.makedirs(edir, exist_ok=True)
+    path = os.path.join(edir, f"{pid}.json")
     tmp = path + ".tmp"
     with open(tmp, "w", encoding="utf-8") as f:
         json.dump(ev, f, indent=1, sort_keys=True)
